@@ -214,6 +214,13 @@ def run_property(prop, tier, seed, only_fn=None, verbose=False):
                 jobs.append(j)
                 fr['jobs'].append(j)
                 submit_job(j)
+        # second chance for obligations left open under load: longer budget, idle machine
+        retry = [dict(j, timeout_ms=j['timeout_ms'] * 6) for j in jobs
+                 if not j['expect_sat'] and by_id[j['id']]['status'] not in ('unsat', 'sat')]
+        if retry:
+            for r in pool.map(smt.discharge_one, retry, chunksize=1):
+                r['retried'] = True
+                by_id[r['id']] = r
     out = []
     for k in keys:
         fr = fres[k]
@@ -284,6 +291,11 @@ def summarise(prop, tier, seed, fres, jobs, by_id, wall, extra_bounded=None):
             vacuity.append('%s generated zero obligations' % fr['key'][1])
         assumed.update(fr.get('assumed', []))
         inlined.update(fr.get('inlined', []))
+        ntriv = sum(fr.get('trivial', {}).values())
+        n_obl += ntriv
+        n_dis += ntriv
+        if ntriv:
+            by_solver['z3-simplifier'] = by_solver.get('z3-simplifier', 0) + ntriv
         functions.append({
             'function': '%s:%s' % fr['key'],
             'source': fr['source'],
@@ -297,6 +309,29 @@ def summarise(prop, tier, seed, fres, jobs, by_id, wall, extra_bounded=None):
             'notes': con.notes,
             'symex_s': round(fr.get('symex_s', 0.0), 2),
         })
+    # ---- baseline ---------------------------------------------------------
+    bpath = os.path.join(ROOT, 'baseline_obligations.json')
+    baseline = {}
+    if os.path.exists(bpath):
+        with open(bpath) as f:
+            baseline = json.load(f)
+    if os.environ.get('VERIF_WRITE_BASELINE'):
+        cur = {}
+        for fr in fres:
+            fjobs = [j for j in jobs if tuple(j['fn']) == tuple(fr['key']) and not j['expect_sat']]
+            groups = {}
+            for j in fjobs:
+                groups.setdefault('/'.join(j['group']), []).append(by_id[j['id']]['status'] == 'unsat')
+            for g, oks in groups.items():
+                if all(oks):
+                    cur.setdefault('%s:%s' % fr['key'], []).append(g)
+            for g in fr.get('trivial', {}):
+                cur.setdefault('%s:%s' % fr['key'], []).append(g)
+        baseline.setdefault(prop, {})
+        baseline[prop] = {k: sorted(set(v)) for k, v in cur.items()}
+        with open(bpath, 'w') as f:
+            json.dump(baseline, f, indent=1, sort_keys=True)
+    base_groups = baseline.get(prop, {})
     # ---- violations -------------------------------------------------------
     violations = []
     known_lines = []
@@ -326,6 +361,12 @@ def summarise(prop, tier, seed, fres, jobs, by_id, wall, extra_bounded=None):
         if kf:
             for f_ in kf:
                 known_lines.append('KNOWN-FINDING: property=%s %s' % (prop, f_['text']))
+            continue
+        in_base = '/'.join(g) in base_groups.get('%s:%s' % fr['key'], [])
+        if not rep.get('reproduced') and not in_base:
+            # never discharged on the pinned tree either: an undecided obligation, not a violation
+            undecided.append({'function': '%s:%s' % fr['key'], 'why': 'refuted-but-not-in-baseline-and-not-replayed',
+                              'group': '/'.join(g), 'replay': path})
             continue
         violations.append((path, rep.get('reproduced'), fr['key'], g))
     # ---- bounded stand-ins -----------------------------------------------
